@@ -513,6 +513,17 @@ func (l *lineage) twinSplitScenario() {
 	if len(got) == len(want) {
 		l.stats["twin-split-scenarios"]++
 	}
+	// second stage: genomes that already carry one of the recorded splits now split further genes IN PLACE within the
+	// same generation, so that a recorded innovation (with a node id smaller than the genome's newest node) is re-used
+	members := append([]*member(nil), l.pool...)
+	for _, m := range members {
+		if m == start || len(m.g.Nodes) <= len(start.g.Nodes) {
+			continue
+		}
+		for try := 0; try < 6 && !big(m.g); try++ {
+			l.mutate(m.gid, m.g, "addnode")
+		}
+	}
 }
 
 func recordLineage(args []string) int {
